@@ -187,8 +187,9 @@ def c09(tier, rng, fam='C09'):
 
 def c10(tier, rng, fam='C10'):
     out = []
-    combos = [(0, 0), (1, 0), (0, 1), (2, 2)] if tier == 'quick' else \
-        [(u, s) for u in (0, 1, 3, 8) for s in (0, 1, 3, 8)]
+    # (more unary calls than the 8 workers: the surplus waits in the read loop's hand-off)
+    combos = [(0, 0), (1, 0), (0, 1), (2, 2), (10, 0), (9, 1)] if tier == 'quick' else \
+        [(u, s) for u in (0, 1, 3, 8, 9, 12) for s in (0, 1, 3, 8)]
     for (nu, ns) in combos:
         for how in ('sread', 'swrite', 'stop'):
             for park in ('recv', 'ctxwait', 'send'):
